@@ -99,9 +99,13 @@ Example c15_ex_duplicate_field_rejected :
 Proof. split; vm_compute; reflexivity. Qed.
 
 Example c15_ex_integer_read_as_float :
-  de_prim DFloat (JNum (NInt (-3))) = Some (VFloat (FFin [45;51;46;48]%N))
-  /\ de_prim DFloat (JNum (NInt 9007199254740993)) = None.
-Proof. split; vm_compute; reflexivity. Qed.
+  de_prim DFloat (JNum (NInt (-3))) = Some (VFloat (FFin [45;51;46;48]%N))                                   (* -3.0 *)
+  /\ de_prim DFloat (JNum (NInt 9007199254740993))
+     = Some (VFloat (FFin [57;48;48;55;49;57;57;50;53;52;55;52;48;57;57;50;46;48]%N))                         (* 9007199254740992.0 *)
+  /\ de_prim DFloat (JNum (NInt 9999999999999999)) = Some (VFloat (FFin [49;101;49;54]%N))                   (* 1e16 *)
+  /\ de_prim DFloat (JNum (NInt 18446744073709551615))
+     = Some (VFloat (FFin [49;46;56;52;52;54;55;52;52;48;55;51;55;48;57;53;53;50;101;49;57]%N)).              (* 1.8446744073709552e19 *)
+Proof. repeat split; vm_compute; reflexivity. Qed.
 
 (* ---- the field attributes, one lemma each (the steps of the generic theorem that are about one attribute) ---- *)
 (* skip_serializing_if (+ default / Option): what was skipped is what absence deserialises to *)
